@@ -252,7 +252,7 @@ class _Gen:
             if ctx["lex"]:
                 kinds.append(("break", 5))
             if last and not ctx["opt"]:
-                kinds.append(("dummy", 3 if not body else 1))
+                kinds.append(("dummy", 3))
             kind = self.weighted(kinds)
             getattr(self, "i_" + kind)(ctx, body)
 
